@@ -1143,3 +1143,21 @@ Lemma send_no_badmapping : forall order ms tnum tden,
   (forall c, In c order) -> 0 < tnum -> 0 < tden ->
   send_transaction order ms tnum tden <> VBadMapping.
 Proof. intros. apply verdict_no_badmapping; auto. apply q_inv_collect. Qed.
+
+(* The tick is an environment event whose guard is only "the handler is alive
+   and in its select": it is enabled after ANY history, however recently other
+   events were served, and then starts a rebroadcast of the pending set unless
+   one is running. *)
+Lemma tick_always_enabled : forall depsort evs,
+  let s := run depsort evs in
+  stopped s = false -> hbusy s = None ->
+  snd (step depsort s ETick) = OTrig /\
+  (wk s = WIdle ->
+   wk (fst (step depsort s ETick)) =
+     WRun (match pending s with [] => [] | z :: l0 => depsort (nsort s) (z :: l0) end) /\
+   snap (fst (step depsort s ETick)) = pending s).
+Proof.
+  intros depsort evs s Hs Hb. simpl. rewrite Hs, Hb. simpl. unfold trigger. rewrite Hs.
+  destruct (wk s) eqn:Ew; simpl; split; try reflexivity; intros H; try discriminate.
+  split; reflexivity.
+Qed.
